@@ -40,12 +40,17 @@ theorem listing_order_independent (o1 o2 : List Pipe) (hp : o1.Perm o2)
 
 /-- **Paging visits every pipe exactly once**: `SHOW PIPES OFFSET i·k LIMIT k` for `i = 0, 1, …`
 concatenate to the whole listing (any page size `k ≥ 1`, enough pages). -/
-theorem paging_partition (names : List Bytes) (k pages : Nat) (hk : 0 < k) (hp : names.length ≤ pages * k) :
+theorem paging_partition (names : List Bytes) (k pages : Nat) (hk : 0 < k) (hp : names.length ≤ pages * k)
+    (hkm : (k : Int) ≤ maxInt64) (hpm : ((pages * k : Nat) : Int) ≤ maxInt64) :
     ((List.range pages).map (fun i => (showPipes names (some (k : Int)) (some ((i * k : Nat) : Int))).getD [])).flatten
       = names := by
-  have : (fun i => (showPipes names (some (k : Int)) (some ((i * k : Nat) : Int))).getD []) =
-      (fun i => (names.drop (0 + i * k)).take k) := by
-    funext i; rw [showPipes_eq names k (i * k) hk]; simp
+  have : (List.range pages).map (fun i => (showPipes names (some (k : Int)) (some ((i * k : Nat) : Int))).getD []) =
+      (List.range pages).map (fun i => (names.drop (0 + i * k)).take k) := by
+    apply List.map_congr_left
+    intro i hi
+    have hi' : i < pages := List.mem_range.mp hi
+    have hle : i * k ≤ pages * k := Nat.mul_le_mul_right k (Nat.le_of_lt hi')
+    rw [showPipes_eq names k (i * k) hk hkm (by omega)]; simp
   rw [this, pages_concat names k pages 0 (by omega)]; simp
 
 /-- a negative OFFSET is rejected, never clamped -/
